@@ -100,6 +100,22 @@ var fCodePool = []string{
 	"{ x := \"\\\"}\" ; return x, nil }",
 	"{ return func() any { return struct{}{} }(), nil }",
 }
+// code blocks the hand-written bootstrap scanner understands: braces balanced as plain characters
+var fCodePoolBoot = []string{
+	"{ return nil, nil }",
+	"{\n\treturn string(c.text), nil\n}",
+	"{}",
+	"{ if true { return 1, nil }; return 2, nil }",
+	"{ return func() any { return struct{}{} }(), nil }",
+}
+
+func (g *fgen) code() string {
+	if g.o.Bootstrap {
+		return fCodePoolBoot[g.r.Intn(len(fCodePoolBoot))]
+	}
+	return fCodePool[g.r.Intn(len(fCodePool))]
+}
+
 var fClassChars = []rune{'a', 'b', 'z', 'A', '0', '9', '_', ' ', '+', '*', '/', '^', '.', 'é', 'ß', '←', '\U0001F600', '\n', '\t', ']', '\\', '[', '"', '\'', 'i', 'p', 'x'}
 var fUniClasses = []string{"L", "N", "Lu", "Ll", "Nd", "Greek", "Latin", "White_Space", "Zs", "P", "Cc", "Han", "ASCII_Hex_Digit"}
 
@@ -147,14 +163,20 @@ func (g *fgen) genPrimary(depth int) *FNode {
 	case x < 15:
 		return &FNode{K: FRef, Ref: fmt.Sprintf("Rule%d", g.r.Intn(g.nrules))}
 	case x < 16:
-		return &FNode{K: FAndCode, Code: fCodePool[g.r.Intn(len(fCodePool))]}
+		if g.o.Bootstrap {
+			return &FNode{K: FAny}
+		}
+		return &FNode{K: FAndCode, Code: g.code()}
 	case x < 17:
-		return &FNode{K: FNotCode, Code: fCodePool[g.r.Intn(len(fCodePool))]}
+		if g.o.Bootstrap {
+			return &FNode{K: FAny}
+		}
+		return &FNode{K: FNotCode, Code: g.code()}
 	case x < 18:
 		if g.o.Bootstrap {
 			return &FNode{K: FAny}
 		}
-		return &FNode{K: FStateCode, Code: fCodePool[g.r.Intn(len(fCodePool))]}
+		return &FNode{K: FStateCode, Code: g.code()}
 	default:
 		if depth < 4 {
 			return g.genExpr(depth + 1) // printed in parentheses
@@ -216,7 +238,7 @@ func (g *fgen) genSeq(depth int) *FNode {
 func (g *fgen) genAction(depth int) *FNode {
 	s := g.genSeq(depth)
 	if g.pct(25) {
-		return &FNode{K: FAction, Code: fCodePool[g.r.Intn(len(fCodePool))], Kids: []*FNode{s}}
+		return &FNode{K: FAction, Code: g.code(), Kids: []*FNode{s}}
 	}
 	return s
 }
@@ -258,6 +280,9 @@ func GenFront(seed int64, idx int, o FrontOpts) *FGrammar {
 	gr := &FGrammar{}
 	if g.pct(60) {
 		gr.Init = "{\npackage main\n\nvar m = map[string]string{\"{\": \"}\"}\n}"
+		if o.Bootstrap {
+			gr.Init = "{\npackage main\n\nvar m = map[string]string{}\n}"
+		}
 	}
 	for i := 0; i < g.nrules; i++ {
 		r := &FRule{Name: fmt.Sprintf("Rule%d", i), Expr: g.genExpr(0)}
@@ -291,6 +316,15 @@ func (p *fprinter) ws(min bool) {
 		n = 1
 	}
 	for i := 0; i < n; i++ {
+		if p.o.Bootstrap {
+			// the hand-written front-end is token based: blanks only inside a rule
+			if p.pct(80) {
+				p.w(" ")
+			} else {
+				p.w("\t")
+			}
+			continue
+		}
 		switch x := p.r.Intn(20); {
 		case x < 12:
 			p.w(" ")
@@ -571,11 +605,19 @@ func (p *fprinter) exprNoParen(n *FNode) {
 // PrintFront prints the grammar with a layout drawn from seed; fills Off fields.
 func PrintFront(g *FGrammar, seed int64, o FrontOpts) string {
 	p := &fprinter{r: rand.New(rand.NewSource(seed)), o: o}
-	p.ws(false)
+	if o.Bootstrap {
+		if p.pct(30) {
+			p.w("\n")
+		}
+	} else {
+		p.ws(false)
+	}
 	if g.Init != "" {
 		g.InitOff = p.off()
 		p.w(g.Init)
-		if p.pct(50) {
+		if o.Bootstrap {
+			p.w("\n")
+		} else if p.pct(50) {
 			p.ws(false)
 			p.w(";")
 		} else {
@@ -598,8 +640,23 @@ func PrintFront(g *FGrammar, seed int64, o FrontOpts) string {
 		}
 		p.w(op)
 		p.ws(false)
+		if o.Bootstrap && p.pct(30) {
+			p.w("\n")
+		}
 		p.expr(r.Expr, 0)
 		last := i == len(g.Rules)-1
+		if o.Bootstrap {
+			if p.pct(30) {
+				p.w(" ;")
+			}
+			if !last || p.pct(70) {
+				p.w("\n")
+				if p.pct(30) {
+					p.w("\n")
+				}
+			}
+			continue
+		}
 		switch x := p.r.Intn(10); {
 		case x < 3:
 			p.ws(false)
